@@ -416,6 +416,72 @@ def proc_suite(ctx, cases: list[dict] | None = None, n: int | None = None) -> No
 
 
 # ------------------------------------------------------------------------------------------------
+# suite 2a: the same decision at production scale - the process-wide filter with its DEFAULT capacity over a
+# processed_messages table around that size (a restart over rows = cap-1 | cap | cap+1 | cap+20), trust option on
+# ------------------------------------------------------------------------------------------------
+
+SIG_BIG = "C09:big-table:handler-ran-again-for-committed-message"
+
+
+def run_big_case(rig: "ProcRig", rows_over: int, tail_n: int = 5) -> dict:
+    """rows = default capacity + rows_over processed records; the last `tail_n` are the ones redelivered after the restart"""
+    from stabilize.queue.dedup import get_deduplicator, reset_deduplicator
+
+    reset_deduplicator()
+    cap = get_deduplicator()._expected_items
+    rows = cap + rows_over
+    conn = rig.store._get_connection()
+    conn.execute("DELETE FROM processed_messages")
+    conn.executemany("INSERT INTO processed_messages (message_id, processed_at, handler_type, execution_id) VALUES (?, datetime('now'), 'bulk', 'e')",
+                     ((f"big-{i}",) for i in range(rows)))
+    conn.commit()
+    rig.counts = {}
+    rig.cap, rig.fp, rig.trust = None, None, True
+    # a new process with the default filter: QueueProcessor.__init__ hydrates it
+    from stabilize import QueueProcessor
+    from stabilize.queue.messages import StartWorkflow
+    from stabilize.queue.processor.config import QueueProcessorConfig
+
+    reset_deduplicator()
+    rig.processor = QueueProcessor(rig.queue, config=QueueProcessorConfig(dedup_trust_negative_cache=True), store=rig.store)
+    rig.processor.register_handler_func(StartWorkflow, rig._handler)
+    d = get_deduplicator()
+    out = f"auth={b01(d.authoritative)} n={d.items_added}"
+    hits = []
+    for i in list(range(rows - tail_n, rows)) + [0, rows // 2]:
+        mid = f"big-{i}"
+        if rig.deliver(mid, "pr", False):
+            hits.append((f"{rows} processed records, default filter capacity {cap}, dedup_trust_negative_cache=True: after a restart the handler "
+                         f"ran again for {mid!r} whose processed record is committed (filter authoritative={d.authoritative}, hydrated {d.items_added} ids)",
+                         SIG_BIG))
+            break
+    conn.execute("DELETE FROM processed_messages")
+    conn.commit()
+    return {"cap": cap, "rows": rows, "out": out, "hits": hits}
+
+
+def big_suite(ctx, overs=(-1, 0, 1, 20)) -> None:
+    workdir = core.scratch_dir()
+    rig = ProcRig(workdir, "big")
+    inputs, lines, impl = [], [], []
+    try:
+        for over in overs:
+            res = run_big_case(rig, over)
+            case = {"suite": "big", "rows_over_capacity": over, "cap": res["cap"], "rows": res["rows"]}
+            ctx.count({"big": over}, nontrivial=True)
+            ctx.tag(f"big-table:rows-minus-cap={over}:{res['out'].split(' ')[0]}")
+            inputs.append(case)
+            lines.append(f"dedup big {res['cap']} {res['rows']}")
+            impl.append(res["out"])
+            for what, sig in res["hits"]:
+                ctx.violation(what, sig, case)
+    finally:
+        rig.close()
+        rmtree(workdir)
+    ctx.correspond("dedup-big-table", inputs, lines, impl)
+
+
+# ------------------------------------------------------------------------------------------------
 # suite 2b: the retention sweep deletes only what is older than the configured age (monitor only)
 # ------------------------------------------------------------------------------------------------
 
@@ -655,6 +721,7 @@ def run(ctx) -> None:
     proc_suite(ctx, cases=[{k: c[k] for k in ("ids", "cap", "fp", "trust", "ops")} for c in corpus])
     engine_suite(ctx)
     retention_suite(ctx)
+    big_suite(ctx)
 
 
 def search(ctx) -> None:
@@ -681,6 +748,15 @@ def replay(ctx, body) -> int:
                 print("   impl :", "|".join(res["outs"]))
             rig.close()
             hits = res["hits"]
+        elif suite == "big":
+            rig = ProcRig(workdir, "replay")
+            res = run_big_case(rig, r["rows_over_capacity"])
+            model = ctx.lean([f"dedup big {res['cap']} {res['rows']}"])
+            print(f"   default capacity {res['cap']}, {res['rows']} processed records, new process: {res['out']}" + (f"   model: {model[0]}" if model else ""))
+            hits = res["hits"]
+            if model is not None and model[0] != res["out"]:
+                hits = hits + [("model and implementation disagree on the hydration decision", "corr")]
+            rig.close()
         elif suite == "retention":
             rig = ProcRig(workdir, "replay")
             H, a = r["max_age_hours"], r["record_age_hours"]
